@@ -6,9 +6,10 @@ import (
 )
 
 // TestSim is the single entry point of the runner binary: one run per OS process.
-//   VERIF_ENGINE  engine/scenario name
-//   VERIF_SEED    the one integer that decides everything
-//   VERIF_OUT     result file (JSON)
+//
+//	VERIF_ENGINE  engine/scenario name
+//	VERIF_SEED    the one integer that decides everything
+//	VERIF_OUT     result file (JSON)
 func TestSim(t *testing.T) {
 	engine := os.Getenv("VERIF_ENGINE")
 	if engine == "" {
